@@ -179,6 +179,15 @@ def node_at(root, path):
 
 def run_impl(t, edits=None):
     impl.reset()
+    import zlib
+    if zlib.crc32(json.dumps(t).encode()) % 4 == 0:
+        # node ids are caller-supplied strings and need not be unique inside a tree (a fragment loaded from JSON twice keeps its
+        # ids): every node is evaluated, whatever its id
+        t = copy.deepcopy(t)
+        nodes_ = [x for _, x in gen.nodes_of(t)]
+        for j, x in enumerate(nodes_):
+            if j % 2 == 1:
+                x[0] = "same-id-a" if j % 4 == 1 else "same-id-b"
     root = impl.build(t)
     pmap = treeval.paths(root)
     if edits:
